@@ -152,6 +152,43 @@ pub fn sites(tier: Tier) -> Vec<Site> {
             check(&s, i, "reserved-and-escape-letters", acc);
         }),
     {
+        // no memory between calls: every ordered pair of strings of length <= 2 over the class alphabet
+        let mut short: Vec<String> = vec![String::new()];
+        for x in ALPHA { short.push(x.to_string()); }
+        for x in ALPHA { for y in ALPHA { short.push(format!("{x}{y}")); } }
+        let short = std::sync::Arc::new(short);
+        let n = (short.len() * short.len()) as u64;
+        Site::new("call-pairs", n,
+            "every ordered pair of strings of length <= 2 over the class alphabet: escape, unescape and strip of the second give the same right after the first as on their own",
+            move |i, acc| {
+                acc.eval();
+                let a = &short[(i as usize) / short.len()];
+                let b = &short[(i as usize) % short.len()];
+                let f = |s: &str| (escape(s).to_string(), unescape(s).to_string(), insim::core::string::colours::strip(s).to_string());
+                let alone = f(b);
+                let _ = f(a);
+                let after = f(b);
+                if alone == after { acc.class("pair-agrees"); acc.nontrivial(); }
+                else { acc.violate(i, "C12|history-dependent".into(), format!("{b:?} gives {after:?} right after {a:?}, {alone:?} otherwise"), json!({"site": "call-pairs", "index": i})); }
+            })
+    },
+    {
+        // every printable ASCII character followed by every character of the repertoire, in a string that
+        // also holds a colour code: two ordinary characters never add up to a code
+        let t = crate::reftext::Tables::load();
+        let chars: Vec<char> = t.union.iter().copied().filter(|c| (*c as u32) >= 0x80).collect();
+        let chars = std::sync::Arc::new(chars);
+        let n = chars.len() as u64 * 95;
+        Site::new("ascii-then-any-character", n,
+            "^7 + every printable ASCII character + every non-ASCII character of the repertoire (95 x ~30 000 strings)",
+            move |i, acc| {
+                let a = char::from_u32(0x20 + (i % 95) as u32).unwrap();
+                let c = chars[(i / 95) as usize];
+                let s = format!("^7{a}{c}");
+                check(&s, i, "ascii-then-any-character", acc);
+            })
+    },
+    {
         // a caret unit at EVERY offset 0..=300 behind five kinds of filler (1-, 2- and 3-byte characters, a
         // digit, a digit followed by letters) with three tails: block-wise or buffered implementations have
         // their seams somewhere in there
